@@ -37,7 +37,7 @@ Record c19_case := {
   (* mover *)
   k_dir : bool;
   k_pos0 : list pt;
-  k_ops : list mop;
+  k_ops : list hop;
   k_trace : list (nat * list pt);      (* first entry: after loading *)
   (* the documented attributes levels, peers_order, pos_levels, pos_peers at the same moments *)
   k_ints : list (list nat * list nat * list Q * list (list Q));
@@ -115,11 +115,6 @@ End LayoutCase.
 Definition entry_close (a b : nat * list pt) : bool :=
   Nat.eqb (fst a) (fst b) && pts_close (snd a) (snd b).
 
-Fixpoint states (s : mstate) (ops : list mop) : list mstate :=
-  match ops with
-  | [] => []
-  | o :: os => let s' := fst (step s o) in s' :: states s' os
-  end.
 Definition ints_of (s : mstate) := (m_levels s, m_order s, m_plev s, m_ppeers s).
 Definition ints_close (a b : list nat * list nat * list Q * list (list Q)) : bool :=
   match a, b with
@@ -129,8 +124,8 @@ Definition ints_close (a b : list nat * list nat * list Q * list (list Q)) : boo
 
 Definition mover_same (cs : c19_case) : bool :=
   let s0 := load (k_dir cs) (k_pos0 cs) in
-  list_eqb entry_close (k_trace cs) ((O, pos s0) :: trace s0 (k_ops cs)) &&
-  list_eqb ints_close (k_ints cs) (map ints_of (s0 :: states s0 (k_ops cs))).
+  list_eqb entry_close (k_trace cs) ((O, pos s0) :: htrace s0 (k_ops cs)) &&
+  list_eqb ints_close (k_ints cs) (map ints_of (s0 :: hstates s0 (k_ops cs))).
 
 Definition overlap (v : bool) (ps : list pt) (i : nat) (x : Q) : bool :=
   existsb (fun j => negb (Nat.eqb j i) && same_level v ps i j && Qeq_bool (pc v (pt_at ps j)) x)
@@ -163,12 +158,34 @@ Definition step_ok (v : bool) (ps : list pt) (o : mop) (e : nat) (ps' : list pt)
          levels_kept v ps ps' && other_levels_kept v ps ps' a
      end.
 
-Fixpoint history_ok (v : bool) (ps : list pt) (ops : list mop) (tr : list (nat * list pt)) : bool :=
+(* the posx / posy setters, judged on pictures.  Along the peer axis the nodes get exactly the
+   assigned coordinates and keep their level coordinates.  Along the level axis the peer
+   coordinates are kept and every node gets the assigned level coordinate - in the horizontal
+   orientation the unchanged code shows the NEGATED value when x is read back (the posx setter
+   stores x where the getter expects -x); both readings are accepted here, uniformly for all nodes,
+   since the property does not speak about these setters. *)
+Definition set_axis_ok (v : bool) (x_axis : bool) (ps : list pt) (l : list Q) (ps' : list pt) : bool :=
+  let n := length ps in
+  Nat.eqb (length ps') n &&
+  let coord := fun (p : pt) => if x_axis then fst p else snd p in
+  let other := fun (p : pt) => if x_axis then snd p else fst p in
+  forallb (fun i => Qeq_bool (other (pt_at ps' i)) (other (pt_at ps i))) (seq 0 n) &&
+  (forallb (fun i => Qeq_bool (coord (pt_at ps' i)) (nth i l 0%Q)) (seq 0 n) ||
+   (negb v && x_axis && forallb (fun i => Qeq_bool (coord (pt_at ps' i)) (- nth i l 0%Q)) (seq 0 n))).
+
+Definition hstep_ok (v : bool) (ps : list pt) (h : hop) (e : nat) (ps' : list pt) : bool :=
+  match h with
+  | HOp o => step_ok v ps o e ps'
+  | HSetX l => Nat.eqb e 0 && set_axis_ok v true ps l ps'
+  | HSetY l => Nat.eqb e 0 && set_axis_ok v false ps l ps'
+  end.
+
+Fixpoint history_ok (v : bool) (ps : list pt) (ops : list hop) (tr : list (nat * list pt)) : bool :=
   match ops, tr with
   | [], [] => true
   | o :: os, (e, ps') :: tr' =>
-      step_ok v ps o e ps' &&
-      history_ok (match o with SetDir v' => v' | _ => v end) ps' os tr'
+      hstep_ok v ps o e ps' &&
+      history_ok (match o with HOp (SetDir v') => v' | _ => v end) ps' os tr'
   | _, _ => false
   end.
 
@@ -200,5 +217,5 @@ Definition c19_show (cs : c19_case) :=
                             map (fun st => if layout_spec_ok (step_case st) then 1 else 0) (k_steps cs),
           @nil (nat * list pt))
   | _ => (LErr 0, LErr 0, [],
-          let s0 := load (k_dir cs) (k_pos0 cs) in (O, pos s0) :: trace s0 (k_ops cs))
+          let s0 := load (k_dir cs) (k_pos0 cs) in (O, pos s0) :: htrace s0 (k_ops cs))
   end.
